@@ -299,9 +299,11 @@ impl Session {
                         }
                         if let Some(hm) = Model::build(n, cap, h) {
                             if o.panic.is_none() && matches!(o.ret, Ret::Res(Ok(_))) {
-                                match self.m.apply_merge_observed(&hm, *left, *right, self.g.as_ref()) {
-                                    Ok(evs) => o.prims = evs,
-                                    Err(e) => o.adopt_error = Some(e),
+                                let (m, g) = (&mut self.m, &self.g);
+                                match guarded(|| m.apply_merge_observed(&hm, *left, *right, g.as_ref())) {
+                                    Ok(Ok(evs)) => o.prims = evs,
+                                    Ok(Err(e)) => o.adopt_error = Some(e),
+                                    Err(p) => o.adopt_error = Some(format!("a query panicked while walking the merged graph: {p}")),
                                 }
                             }
                             o.merge_h = Some((hg, hm));
